@@ -62,7 +62,7 @@ ATOMS = [0, True, 1.5, "s", b"b", None]
 
 
 def atoms():
-    return ATOMS + [FX.Base(), FX.Left(), FX.Both(), FX.Outer.Inner(), FX.MyList([1]), FX.MyDict(a=1), FX.WithMeta(),
+    return ATOMS + [FX.Base(), FX.Left(), FX.Both(), FX.Outer.Inner(), FX.MyList([1]), FX.MyDict(a=1), FX.WithMeta(), FX.Falsy(),
                     FX.Base, FX.Both, int, len, FX.a_function, (lambda: 0), FX.a_generator()]
 
 
@@ -119,6 +119,10 @@ def types_corpus(depth=2):
               Union[FX.Left, FX.Right, FX.Both, FX.Base, FX.Outer.Inner, FX.MyList], Union[List[int], int], Union[Dict[Any, Any], Dict[int, int]]]
     out += unions
     n0 = len(unions)
+    # a class that evaluates false (metaclass __len__) as key / element type, first and later
+    unions += [Union[Dict[FX.Falsy, int], Dict[str, str]], Union[Dict[str, str], Dict[FX.Falsy, int]], Union[Dict[FX.Falsy, int], Dict[FX.Falsy, str]],
+               Union[Tuple[FX.Falsy], Tuple[FX.Falsy, FX.Falsy], Tuple[str], Tuple[str, str], Tuple[str, str, str], Tuple[str, str, str, str]],
+               Union[Tuple[str], Tuple[str, str], Tuple[FX.Falsy], Tuple[FX.Falsy, FX.Falsy], Tuple[str, str, str], Tuple[str, str, str, str]]]
     tups = [Tuple[()], Tuple[int], Tuple[int, int], Tuple[int, int, int], Tuple[int, int, int, int], Tuple[int, int, int, int, int], Tuple[int, int, int, int, int, int]]
     unions += [Union[tuple(tups)], Union[tuple(tups[1:] + tups[:1])], Union[tuple(tups[1:4] + tups[:1] + tups[4:])],
                Union[Dict[Any, Any], DefaultDict[str, int]], Union[DefaultDict[Any, Any], Dict[str, int]], Union[DefaultDict[Any, Any], DefaultDict[str, int]],
